@@ -470,11 +470,25 @@ class Parser:
             did_something = True
         elif next_tag in self._COMP_TABLE and _PREC_COMPARISON > min_precedence:
             pstate.advance()
-            from pymbolic.primitives import Comparison
-            left_exp = Comparison(
-                    left_exp,
-                    self._COMP_TABLE[next_tag],
-                    self.parse_expression(pstate, _PREC_COMPARISON))
+            from pymbolic.primitives import Comparison, LogicalAnd
+            right_exp = self.parse_expression(pstate, _PREC_COMPARISON)
+            comparisons = [
+                    Comparison(left_exp, self._COMP_TABLE[next_tag], right_exp)]
+
+            # Python-style chains: a < b <= c means (a < b) and (b <= c)
+            while (not pstate.is_at_end()
+                    and pstate.next_tag() in self._COMP_TABLE):
+                next_tag = pstate.next_tag()
+                pstate.advance()
+                left_exp = right_exp
+                right_exp = self.parse_expression(pstate, _PREC_COMPARISON)
+                comparisons.append(
+                    Comparison(left_exp, self._COMP_TABLE[next_tag], right_exp))
+
+            if len(comparisons) == 1:
+                left_exp, = comparisons
+            else:
+                left_exp = LogicalAnd(tuple(comparisons))
             did_something = True
         elif next_tag is _colon and _PREC_SLICE >= min_precedence:
             pstate.advance()
